@@ -88,9 +88,13 @@ def r02a(ctx, rep, cr):
         for callee in ('write_entry_no_sync', 'maybe_sync'):
             cs = A.calls_to(f, TW + callee)
             ok = set()
+            passthrough = set()
             for c in cs:
-                ok |= A.call_outcome(f, c, uses).ok
-            rets = lib.success_return_reachable(f, [0], cut_edges=ok) if ok else ['?']
+                o = A.call_outcome(f, c, uses)
+                ok |= o.ok
+                if not o.ok and o.returned:
+                    passthrough.add(c.bb)   # `self.maybe_sync()` as the tail expression: its Result is append's Result
+            rets = lib.success_return_reachable(f, [0], cut_edges=ok, cut_blocks=passthrough) if (ok or passthrough) else ['?']
             if not cs or rets:
                 rep.violation('R02a', f, callee, f.loc(),
                               'TensorWal::append can return Ok without a successful %s (calls: %d)' % (callee, len(cs)))
